@@ -6,6 +6,7 @@ import (
 	"go/constant"
 	"go/token"
 	"go/types"
+	"sort"
 	"strings"
 
 	"golang.org/x/tools/go/ssa"
@@ -245,7 +246,7 @@ func checkC17(c *Ctx) {
 				return
 			}
 			switch ir.CallID(call) {
-			case utilPkg + ".GUIDToBytes", utilPkg + ".EFIGUID.Bytes", utilPkg + ".WriteGUID":
+			case utilPkg + ".GUIDToBytes", utilPkg + ".EFIGUID.Bytes", utilPkg + ".WriteGUID", utilPkg + ".BytesToGUID":
 				key := ordinalKey(counts, name(fn)+":text-order-bytes")
 				c.R.Violf("G7.wire", name(fn), strings.TrimPrefix(key, name(fn)+":"), c.IPos(call),
 					"library code does not use the big-endian (text order) GUID bytes for encoded structures",
@@ -865,6 +866,36 @@ func checkC18(c *Ctx) {
 	if fn := c.Fn("H3.hdtext", "efi/device.(HardDriveMediaDevicePath).Format"); fn != nil {
 		c.hardDriveText(fn)
 	}
+	c.ruleBootNumberRange("H2.range")
+	c.ruleDevicePathNumbers("G5.numbers")
+	// node bytes are in the in-structure layout: the text-order GUID converters are not applied to them
+	{
+		counts := map[string]int{}
+		n := 0
+		for _, f := range c.P.LibFunctions() {
+			if !strings.Contains(name(f), "efi/device.") {
+				continue
+			}
+			f := f
+			instrsOf(f, func(i ssa.Instruction) {
+				call, ok := i.(*ssa.Call)
+				if !ok {
+					return
+				}
+				switch ir.CallID(call) {
+				case utilPkg + ".GUIDToBytes", utilPkg + ".EFIGUID.Bytes", utilPkg + ".WriteGUID", utilPkg + ".BytesToGUID":
+					n++
+					key := ordinalKey(counts, name(f)+":text-order-bytes")
+					c.R.Violf("G7.wire", name(f), strings.TrimPrefix(key, name(f)+":"), c.IPos(call),
+						"device-path code does not use the big-endian (text order) GUID converters on node bytes",
+						"call of "+shortID(ir.CallID(call))+": node fields are in the EFI in-structure layout (little-endian GUID fields); the text shows the first three groups byte-swapped")
+				}
+			})
+		}
+		if n == 0 {
+			c.R.Okf("G7.wire", "-", "scan", "-", "no text-order GUID converter is called in the device-path package")
+		}
+	}
 	// every entry is decoded; a reused receiver is replaced; rendering cannot fail on field values
 	for _, s := range sites {
 		c.ruleAllEntries("H2.all", s.fn)
@@ -1029,7 +1060,60 @@ func (c *Ctx) hardDriveText(fn *ssa.Function) {
 			slr := c.Slicer()
 			slr.Control = true
 			sl := slr.Slice(a)
-			if !ir.HasField(sl, dev+want[j]) && dv.fieldOrigin(a, dv.root, 0) != dev+want[j] {
+			derives := ir.HasField(sl, dev+want[j]) || dv.fieldOrigin(a, dv.root, 0) == dev+want[j]
+			if !derives {
+				// a local value decoded from the field's bytes (binary.Read / copy into it) and rendered
+				locals := map[*ssa.Alloc]bool{}
+				for v := range sl {
+					if al, isA := v.(*ssa.Alloc); isA {
+						locals[al] = true
+					}
+					if cl, isC := v.(*ssa.Call); isC && cl.Parent() == fn {
+						for _, ca := range ir.CallArgs(cl) {
+							if al, isA := ir.RootOf(ir.StripIface(ca)).(*ssa.Alloc); isA {
+								locals[al] = true
+							}
+						}
+					}
+				}
+				if cl, isC := ir.StripIface(a).(*ssa.Call); isC {
+					for _, ca := range ir.CallArgs(cl) {
+						if al, isA := ir.RootOf(ir.StripIface(ca)).(*ssa.Alloc); isA {
+							locals[al] = true
+						}
+					}
+				}
+				for al := range locals {
+					instrsOf(fn, func(k ssa.Instruction) {
+						wc, isC := k.(*ssa.Call)
+						if !isC {
+							return
+						}
+						id := ir.CallID(wc)
+						if id != "encoding/binary.Read" && id != "builtin.copy" && id != "io.ReadFull" {
+							return
+						}
+						writes := false
+						for _, wa := range wc.Call.Args {
+							if ir.RootOf(ir.StripIface(wa)) == ssa.Value(al) {
+								writes = true
+							}
+						}
+						if !writes {
+							return
+						}
+						for _, wa := range wc.Call.Args {
+							if ir.RootOf(ir.StripIface(wa)) != ssa.Value(al) && ir.HasField(c.Slicer().Slice(wa), dev+want[j]) {
+								derives = true
+								for x := range c.Slicer().Slice(wa) {
+									sl[x] = true
+								}
+							}
+						}
+					})
+				}
+			}
+			if !derives {
 				bad = append(bad, fmt.Sprintf("argument %d does not derive from %s", j+1, want[j]))
 			}
 			for _, o := range want {
@@ -1400,4 +1484,74 @@ func (d *deepView) sliceLen(v ssa.Value, fr *frame) Affine {
 		return hi
 	}
 	return symAffine("len("+d.pathName(r.v, r.fr, 0)+")", r.v)
+}
+
+// ruleBootNumberRange (H2.range): boot numbers are all 16-bit values. A parse
+// of the four digits with strconv.ParseInt(s, 16, 16) accepts 0000-7FFF only
+// (the result must fit a signed 16-bit integer): names that the boot order
+// hands out for numbers from 8000 up would not be recognised.
+func (c *Ctx) ruleBootNumberRange(rule string) {
+	n := 0
+	for _, fn := range c.P.LibFunctions() {
+		if fn.Pkg == nil || !(strings.HasSuffix(fn.Pkg.Pkg.Path(), "/efivarfs") || strings.HasSuffix(fn.Pkg.Pkg.Path(), "/efi") || strings.HasSuffix(fn.Pkg.Pkg.Path(), "/efivar")) {
+			continue
+		}
+		fn := fn
+		instrsOf(fn, func(i ssa.Instruction) {
+			call, ok := i.(*ssa.Call)
+			if !ok || ir.CallID(call) != "strconv.ParseInt" || len(call.Call.Args) != 3 {
+				return
+			}
+			base, okB := ir.ConstInt(call.Call.Args[1])
+			bits, okS := ir.ConstInt(call.Call.Args[2])
+			if !okB || !okS || base != 16 {
+				return
+			}
+			n++
+			c.R.Check(bits > 16 || bits == 0, rule, name(fn), "hex-number-range", c.IPos(call), "a parse of four hexadecimal digits accepts every 16-bit value",
+				fmt.Sprintf("strconv.ParseInt(s, 16, %d) rejects values from %#x up (signed range): Boot8000 ... BootFFFF are refused", bits, int64(1)<<(uint(bits)-1)))
+		})
+	}
+	if n == 0 {
+		c.R.Okf(rule, "-", "scan", "-", "no signed parse of hexadecimal boot numbers in the variable access packages")
+	}
+}
+
+// ruleDevicePathNumbers (G5.numbers): the type and sub-type constants of the
+// device-path package equal the numbers UEFI assigns (section 10.3): the node
+// dispatch compares wire bytes with them.
+func (c *Ctx) ruleDevicePathNumbers(rule string) {
+	want := map[string]int64{
+		"Hardware": 1, "ACPI": 2, "MessagingDevicePath": 3, "MediaDevicePath": 4, "BIOSBootSpecificationDevicePath": 5, "EndOfHardwareDevicePath": 127,
+		"HardwarePCI": 1, "HardwarePCCARD": 2, "HardwareMemoryMapped": 3, "HardwareVendor": 4, "HardwareController": 5, "HardwareBMC": 6,
+		"ACPIDevice": 1, "ExpandedACPIDevice": 2, "MessagingUSB": 5, "MessagingVendor": 10,
+		"HardDriveDevicePath": 1, "CDRomDevicePath": 2, "VendorMediaDevicePath": 3, "FilePathDevicePath": 4, "MediaProtocolDevicePath": 5, "PIWGFirmwareDevicePath": 6,
+	}
+	sp := c.P.SSAPkgs[M+"/efi/device"]
+	if sp == nil {
+		c.R.Undecf(rule, "efi/device", "constants", "-", "device-path constants", "package not loaded")
+		return
+	}
+	var bad []string
+	found := 0
+	names := make([]string, 0, len(want))
+	for nm := range want {
+		names = append(names, nm)
+	}
+	sort.Strings(names)
+	for _, nm := range names {
+		k, ok := sp.Members[nm].(*ssa.NamedConst)
+		if !ok {
+			continue
+		}
+		found++
+		if v, isInt := constant.Int64Val(constant.ToInt(k.Value.Value)); !isInt || v != want[nm] {
+			bad = append(bad, fmt.Sprintf("%s is %s, UEFI assigns %d", nm, k.Value.Value.String(), want[nm]))
+		}
+	}
+	if found < 10 {
+		c.R.Infof(rule, "efi/device", "constants", "-", fmt.Sprintf("not decided for this shape: only %d of the known constant names are declared", found))
+		return
+	}
+	c.R.Check(len(bad) == 0, rule, "efi/device", "constants", "-", "device-path type and sub-type constants carry the numbers UEFI assigns", strings.Join(bad, "; "))
 }
